@@ -483,6 +483,13 @@ def run(ctx):
         ctx.sample({k: v for k, v in ev[j].items()})
     rej = sigs.judge(ctx, blobs, ev)
     ctx.traces += len(ev) - len(rej)
+    bad = {i for i, _ in rej}
+    good = [e for i, e in enumerate(ev) if i not in bad]
+    ctx.selftest(lambda b: sigs.judge(ctx, blobs, b), good,
+                 [('a semantic mutation of the type octet reported truthy', lambda e: dict(e, result='truthy') if e['mut'].startswith('type bit') and e['asig'] and e['result'] == 'falsy' else None),
+                  ('a flipped document reported truthy', lambda e: dict(e, result='truthy') if e['mut'].startswith('subj') and e['case'].startswith('doc') and e['result'] != 'truthy' and e['asig'] else None),
+                  ('verification with an unrelated key reported truthy', lambda e: dict(e, result='truthy', asig=e['osig']) if e['mut'] == 'vkey: unrelated key' else None),
+                  ('a flipped signature value reported truthy', lambda e: dict(e, result='truthy') if e['mut'].startswith('sigval bit') and e['result'] == 'falsy' and e['asig'] else None)], 'C01')
     out = {}
     for e in ev:
         key = ('semantic' if e['expect_semantic'] else 'neutral', e['result'])
